@@ -402,7 +402,7 @@ def call_task(mod, fname, arg, acc):
                 pass
             acc.caps.append(f'{fname}: aborted by an exception from the library')
         elif inner is not None and ((isinstance(e, (ValueError, IndexError)) and any(t in str(e) for t in ('broadcast', 'shape', 'dimension', 'out of bounds', 'index', 'axis', 'size', 'zero-size', 'empty')))
-                                    or (isinstance(e, (TypeError, AttributeError)) and 'NoneType' in str(e))):
+                                    or (isinstance(e, (TypeError, AttributeError)) and any(t in str(e) for t in ('NoneType', "'list' object has no attribute", "'tuple' object has no attribute", "'float' object has no attribute", "'int' object has no attribute")))):
             # the comparison code itself tripped over the SHAPE of something the library returned (an array of another length
             # than the reference): that is a behaviour of the code under test, not a defect of the harness; reported, replayable
             try:
